@@ -52,6 +52,14 @@ def live_spy_loops(run, model, cg, facs, rule='LIVE.spy-once'):
             raise AnalysisError('%s: expected one loop over the step log' % nm)
         h = loops[0]
         it = h.stmt.iter
+        if isinstance(it, ast.Name):
+            # a local bound once to the copy (`lines = list(self.rtc.spy)`), after the wrapped step and before the loop
+            from sa.util import local_defs as _ld
+            ds_ = [d_ for d_ in _ld(inner.node).get(it.id, []) if isinstance(d_, ast.AST)]
+            dn_ = [n_ for n_ in g.nodes if n_.kind == 'stmt' and isinstance(n_.ast, ast.Assign) and any(isinstance(t_, ast.Name) and t_.id == it.id for t_ in n_.ast.targets)]
+            steps_ = [n_ for n_ in g.nodes if wrap.fn_calls_in(n_, fac.params[0])] if hasattr(wrap, 'fn_calls_in') else []
+            if len(ds_) == 1 and len(dn_) == 1 and g.dominates(dn_[0], h) and not any(g.exists_path(dn_[0], s_) for s_ in steps_):
+                it = ds_[0]
         snap = (isinstance(it, ast.Call) and isinstance(it.func, ast.Attribute) and it.func.attr == 'copy' and (dotted(it.func.value) or '').endswith('.rtc.spy')) or \
                (isinstance(it, ast.Call) and norm(it.func) in ('list', 'tuple') and it.args and (dotted(it.args[0]) or '').endswith('.rtc.spy'))
         run.inst(rule, inner, 'iterates a snapshot of the step log', bool(snap),
